@@ -140,9 +140,15 @@ def run(prog, tier):
         if b is not None:
             break
     okpos = b is not None
+    # "the same draw": the cell index is drawn ONCE - a random call written out at each use is a new draw at each use (the
+    # resolved term cannot tell, it inlines a local into all its uses)
+    n_draws = sum(1 for x in ast.walk(ps) if isinstance(x, ast.Call) and isinstance(x.func, ast.Attribute) and x.func.attr in
+                  ("choice", "integers", "randint", "multinomial", "searchsorted"))
+    if okpos and n_draws != 1:
+        okpos = False
     obs.append(struct_ob("sample-form", fqual(mi, ps) + "[position]", okpos,
-                         f"samples must be x[k] + T(U, delta[k]) * dx[k] for the chosen cell k, all three indexed by the same draw: "
-                         f"returned term `{U(rt)[:300]}`", REL, ret.lineno))
+                         f"samples must be x[k] + T(U, delta[k]) * dx[k] for the chosen cell k, all three indexed by the same draw "
+                         f"({n_draws} cell-index draw(s) written in the function): returned term `{U(rt)[:300]}`", REL, ret.lineno))
     ABS = [(f"{pd}[1:]", "P1"), (f"{pd}[:-1]", "P0"), (f"{xs}[1:]", "X1"), (f"{xs}[:-1]", "X0")]
     p1, p0 = R.sym("P1"), R.sym("P0")
     x1, x0 = R.sym("X1"), R.sym("X0")
